@@ -252,6 +252,29 @@ mutant("accepted-request-data-released", ["C06"], [("cpu.go", """	if cpu.Interru
 	}""")], note="the library writes into the request value: a host that re-presents the same *Interrupt gets an empty one")
 
 
+mutant("decode-length-cache-invalidated-by-cpu-writes-only", ["C10"], [("z80.go", """	// HALT indicates whether the last Run() is terminated with HALT op.
+	HALT bool
+}""", """	// HALT indicates whether the last Run() is terminated with HALT op.
+	HALT bool
+
+	nopAt map[uint16]bool
+}"""), ("cpu.go", """	// execute an op-code.
+	cpu.executeOne()""", """	// execute an op-code.
+	if cpu.nopAt[cpu.PC] {
+		// known NOP at this address: skip the decoder (the fetch still happens)
+		cpu.fetchM1()
+		return
+	}
+	pc := cpu.PC
+	cpu.executeOne()
+	if cpu.PC == pc+1 && cpu.Memory.Get(pc) == 0 {
+		if cpu.nopAt == nil {
+			cpu.nopAt = map[uint16]bool{}
+		}
+		cpu.nopAt[pc] = true
+	}""")], note="per-CPU cache of 'this address holds a NOP', never invalidated: wrong after self-modification or host DMA")
+
+
 # ---- C12 -------------------------------------------------------------------
 mutant("dumbmemory-set-unguarded", ["C12"], [("memio.go", """func (dm DumbMemory) Set(addr uint16, value uint8) {
 	if int(addr) >= len(dm) {
